@@ -542,7 +542,7 @@ def gen_world(seed, index, profile="greedy", **over):
         if rng.random() < 0.5:
             gd["start"] = rng.randint(0, 5)
         if pol == "fixed":
-            gd["period"] = rng.choice([0, 0, 1, 2, 5, 10])
+            gd["period"] = rng.choice(over.get("periods", [0, 0, 1, 2, 5, 10]))
             gd["invocations"] = inv
         elif pol == "periodic":
             gd["period"] = rng.choice([3, 5, 10, 20])
